@@ -2,7 +2,7 @@
    construction.  For every length: the head renders to the target when the chain fits within the
    documented depth of 64 (counted from the depth at which the head is met), and to the depth
    error -- never a loop error, never a value -- when it does not. *)
-From RV Require Import Model.Interp Proofs.ValueFacts Proofs.WfFacts Proofs.InterpFacts Proofs.ParserShape Proofs.TemplateRender.
+From RV Require Import Model.Interp Proofs.ValueFacts Proofs.MappingFacts Proofs.WfFacts Proofs.InterpFacts Proofs.FixedPoint Proofs.ParserShape Proofs.TemplateRender.
 
 Definition refs (k : string) : string := ("${" ++ k ++ "}")%string.
 
@@ -16,22 +16,22 @@ Fixpoint links (root : mapping) (ks : list string) (target : value) : Prop :=
 (** a key that can be written as a reference path of one segment *)
 Definition key_ok (k : string) : Prop := k <> ""%string /\ plain k /\ split_on ":" k = [k].
 
-Definition scalar (v : value) : Prop :=
-  match v with VLit _ | VBool _ | VNum _ | VNull => True | _ => False end.
+(** what a chain may end in: rendered (closed) data of any kind and shape *)
+Definition plain_data (v : value) : Prop := closed v /\ wf v /\ simple_keys v.
 
 Lemma refs_parse k : key_ok k -> token_parse (refs k) = Parsed (TRef [TLit k]).
 Proof. intros (Hne & Hp & _). destruct k as [|c r]; [congruence|]. exact (ref_parse c r Hp). Qed.
 
-Lemma scalar_interp v f root st : scalar v -> interp (S f) root v st = Ok (v, st).
-Proof. destruct v; cbn; intros H; try destruct H; reflexivity. Qed.
+Lemma data_interp v f root st : plain_data v -> 2 * vdepth v < f -> interp f root v st = Ok (v, st).
+Proof. intros (Hc & Hw & Hs) Hf. exact (interp_closed_id root f v st Hf Hc Hw Hs). Qed.
 
-Lemma scalar_not_string v : scalar v -> is_string v || is_vlist v = false.
-Proof. destruct v; cbn; intros H; try destruct H; reflexivity. Qed.
+Lemma data_not_string v : plain_data v -> is_string v || is_vlist v = false.
+Proof. intros (Hc & _). destruct v; cbn in *; try destruct Hc; reflexivity. Qed.
 
 Section Chain.
   Variable root : mapping.
   Variable target : value.
-  Hypothesis Htarget : scalar target.
+  Hypothesis Htarget : plain_data target.
 
   Lemma chain_renders : forall ks st,
     links root ks target -> Forall key_ok ks -> NoDup ks -> Forall (fun k => mem k (seen st) = false) ks ->
@@ -64,7 +64,7 @@ Section Chain.
       - apply Forall_forall. intros x Hx. cbn [st2 st1 add_seen with_depth seen mem].
         rewrite Forall_forall in Hss. rewrite (Hss x Hx), Bool.orb_false_r.
         apply String.eqb_neq. intros ->. exact (Hnotin Hx). }
-    destruct Htail as [F1 H1]. exists (F1 + 8). intros f Hf.
+    destruct Htail as [F1 H1]. exists (F1 + 2 * vdepth target + 8). intros f Hf.
     destruct f as [|[|[|[|[|[|[|[|f8]]]]]]]]; try lia.
     cbn [interp]. rewrite Hparse. cbn [token_render]. cbn [token_resolve]. fold st1.
     assert (Ed : depth st1 = S (depth st)) by reflexivity.
@@ -81,8 +81,8 @@ Section Chain.
       rewrite Esl. cbn [bind]. change (seen st1) with (seen st). rewrite Hs0. fold st2. rewrite Hsplit.
       destruct ks as [|k' ks'].
       + (* the last link: the target itself *)
-        cbn [links] in Hl. rewrite Hl. cbn [walk_loop bind]. cbn [interp_while]. rewrite (scalar_not_string target Htarget). cbn [bind].
-        rewrite (scalar_interp target _ root st2 Htarget).
+        cbn [links] in Hl. rewrite Hl. cbn [walk_loop bind]. cbn [interp_while]. rewrite (data_not_string target Htarget). cbn [bind].
+        rewrite (data_interp target _ root st2 Htarget) by lia.
         cbn [List.length]. replace (Nat.leb (depth st + 1) 64) with true; [eexists; reflexivity|].
         symmetry. apply Nat.leb_le. rewrite Ed in Elt. lia.
       + destruct Hl as [Hget Hl']. rewrite Hget. cbn [walk_loop bind]. cbn [interp_while is_string is_vlist orb].
@@ -90,15 +90,15 @@ Section Chain.
         assert (Ed2 : depth st2 + List.length (k' :: ks') = depth st + S (List.length (k' :: ks'))) by (cbn; lia).
         rewrite Ed2 in H1.
         destruct (Nat.leb (depth st + S (List.length (k' :: ks'))) 64).
-        * destruct H1 as [st' H1]. rewrite H1. cbn [bind]. cbn [interp_while]. rewrite (scalar_not_string target Htarget). cbn [bind].
-          rewrite (scalar_interp target _ root st' Htarget). eexists. reflexivity.
+        * destruct H1 as [st' H1]. rewrite H1. cbn [bind]. cbn [interp_while]. rewrite (data_not_string target Htarget). cbn [bind].
+          rewrite (data_interp target _ root st' Htarget) by lia. eexists. reflexivity.
         * destruct H1 as (ck & sn & H1). rewrite H1. cbn [bind]. eexists. eexists. reflexivity.
   Qed.
 End Chain.
 
 (** from the top level: a chain of at most 64 references renders to its target ... *)
 Theorem chains_within_the_limit_render root target k0 ks :
-  scalar target -> links root (k0 :: ks) target -> Forall key_ok (k0 :: ks) -> NoDup (k0 :: ks) ->
+  plain_data target -> links root (k0 :: ks) target -> Forall key_ok (k0 :: ks) -> NoDup (k0 :: ks) ->
   List.length (k0 :: ks) <= RESOLVE_MAX_DEPTH ->
   exists F, forall f, F <= f -> exists st', interp f root (VStr (refs k0)) st0 = Ok (target, st').
 Proof.
@@ -112,7 +112,7 @@ Qed.
 
 (** ... and a longer one is reported as exceeding the depth, not as a loop and not as a value *)
 Theorem chains_beyond_the_limit_are_depth_errors root target k0 ks :
-  scalar target -> links root (k0 :: ks) target -> Forall key_ok (k0 :: ks) -> NoDup (k0 :: ks) ->
+  plain_data target -> links root (k0 :: ks) target -> Forall key_ok (k0 :: ks) -> NoDup (k0 :: ks) ->
   RESOLVE_MAX_DEPTH < List.length (k0 :: ks) ->
   exists F, forall f, F <= f -> exists ck sn, interp f root (VStr (refs k0)) st0 = Err (EDepth ck sn).
 Proof.
